@@ -201,6 +201,29 @@ func jsonRoundTrip(s string) string {
 	return out
 }
 
+// findingStatus returns the status ("known", "fixed") with which a finding id
+// is listed in the findings file, or "" when it is not listed at all.
+func findingStatus(id string) string {
+	p := os.Getenv("VERIF_KNOWN")
+	if p == "" {
+		p = "/verif/KNOWN_FINDINGS.jsonl"
+	}
+	b, err := os.ReadFile(p)
+	if err != nil {
+		return ""
+	}
+	for _, line := range strings.Split(string(b), "\n") {
+		var f struct {
+			ID     string `json:"id"`
+			Status string `json:"status"`
+		}
+		if json.Unmarshal([]byte(line), &f) == nil && f.ID == id {
+			return f.Status
+		}
+	}
+	return ""
+}
+
 // outcome of one executed case
 type outcome struct {
 	key          string // violation root-cause key ("" = held)
